@@ -424,7 +424,8 @@ def punctuation_symetrify(tree, **params):
             candnum = leftmost_term.data['num'] - 1
             cand = terms[candnum - 1]
             if cand.data['word'] in trees.PAIRPUNCT \
-               and not cand in done:
+               and not cand in done \
+               and len(cand.parent.children) > 1:
                 cand.parent.children.remove(cand)
                 cand.parent = terminal.parent
                 terminal.parent.children.append(cand)
@@ -437,7 +438,8 @@ def punctuation_symetrify(tree, **params):
             candnum = rightmost_term.data['num'] + 1
             cand = terms[candnum - 1]
             if cand.data['word'] in trees.PAIRPUNCT \
-               and not cand in done:
+               and not cand in done \
+               and len(cand.parent.children) > 1:
                 cand.parent.children.remove(cand)
                 cand.parent = terminal.parent
                 terminal.parent.children.append(cand)
